@@ -1,5 +1,6 @@
 import Q1t.Proofs.SimOracle
 import Q1t.Proofs.CircuitObj
+import Q1t.Gen.AmbientSites
 /-!
 # C10 — seeded runs are reproducible and use only the supplied generator
 
@@ -38,5 +39,29 @@ theorem run_is_function {W P S : Type} (B : Backend W P S) (s : S) (c : List Nat
 theorem run_append {W P S : Type} (B : Backend W P S) (s : S) (c : List Nat) (ops₁ ops₂ : List (COp P)) :
     execOps B s c (ops₁ ++ ops₂) = (execOps B s c ops₁).bind (fun sc => execOps B sc.1 sc.2 ops₂) :=
   Q1t.Proofs.CircuitObj.execOps_append B s c ops₁ ops₂
+
+
+/-! ## Tie to the source: where the library touches ambient state
+
+`Q1t.Gen.ambientSites` is regenerated from `/repo/src` on every run (tools/gen/c10_ambient.py): every use of a
+process/thread random generator, a randomly keyed `std` hash container, the clock, the environment, thread-local or
+static mutable state, outside tests and verif hooks. -/
+
+/-- **ambient_sites_as_expected** — the only functions of the library that consult an ambient random generator are the
+two UNSEEDED convenience wrappers `Circuit::execute` and `Circuit::reexecute` (which hand `thread_rng()` to the seeded
+entry points), and the only randomly keyed `std` hash container is the result map built by `histogram_string` (whose
+iteration order reaches no per-shot result).  No clock, environment, thread-local or static mutable state anywhere.
+`decide` over the regenerated table: a new site in any source file fails this obligation. -/
+theorem ambient_sites_as_expected :
+    Q1t.Gen.ambientSites =
+      [("src/circuit.rs", "execute", "thread_rng"),
+       ("src/circuit.rs", "histogram_string", "std-HashMap-new"),
+       ("src/circuit.rs", "reexecute", "thread_rng")] := by decide
+
+/-- … hence no seeded entry point (`execute_with`, `execute_with_rng`, `reexecute_with_rng`) and nothing they call
+touches ambient state: every site lies in a function that is not reachable from them (`execute`/`reexecute` call INTO
+the seeded entry points, `histogram_string` is a query). -/
+theorem seeded_paths_have_no_ambient_site :
+    ∀ s ∈ Q1t.Gen.ambientSites, s.2.1 ∈ ["execute", "reexecute", "histogram_string"] := by decide
 
 end Q1t.Props.C10
